@@ -20,6 +20,7 @@ PY = sys.executable
 NPROC = int(os.environ.get('VERIF_NPROC', '0')) or min(16, os.cpu_count() or 1)
 
 EXIT_OK, EXIT_VIOLATION, EXIT_HARNESS = 0, 1, 2
+STALL_S = int(os.environ.get('VERIF_STALL_S', '2400'))
 
 
 class HarnessError(Exception):
@@ -221,7 +222,14 @@ def run_pool(result, modname, fn, shards, tier, budget_s=None, chunksize=1,
     with ctx.Pool(NPROC, maxtasksperchild=maxtasks) as pool:
         it = pool.imap_unordered(_worker, [(modname, fn, sh, tier) for sh in shards],
                                  chunksize=chunksize)
-        for r in it:
+        while True:
+            try:
+                r = it.next(timeout=STALL_S)
+            except StopIteration:
+                break
+            except multiprocessing.TimeoutError:
+                pool.terminate()
+                raise HarnessError(f'no shard finished within {STALL_S}s (worker lost?)')
             result.merge(r)
             result.shards_done += 1
             if budget_s and time.time() - t0 > budget_s and result.shards_done < len(shards):
